@@ -6,7 +6,7 @@ from common import enc_keys, enc_pos
 
 
 def gen_bounds(rng, nv):
-    mode = rng.choice(['unit', 'wide', 'narrow', 'degenerate', 'mixed', 'int', 'huge', 'offset'])
+    mode = rng.choice(['unit', 'wide', 'narrow', 'degenerate', 'mixed', 'int', 'huge', 'offset', 'intlb', 'intub'])
     lb, ub = [], []
     for j in range(nv):
         if mode == 'unit':
@@ -23,6 +23,11 @@ def gen_bounds(rng, nv):
             l, u = -(j + 1), j + 2
         elif mode == 'huge':
             l, u = -1e12, 1e12
+        elif mode == 'intlb':
+            # integer lower bounds (an int list / int array), fractional upper bounds
+            l = rng.randint(-4, 4); u = l + rng.choice([0.5, 2.5, 0.75])
+        elif mode == 'intub':
+            u = rng.randint(-4, 4); l = u - rng.choice([0.5, 2.5, 0.75])
         else:
             l = round(rng.uniform(-5, 5), 2); u = l + rng.choice([0.25, 1.0, 7.0])
         lb.append(l); ub.append(u)
@@ -56,6 +61,33 @@ def projection_ok(np, before, after, lb, ub):
     return True, None
 
 
+def setup_agent(L, a, setup, lb, ub):
+    """the ways an agent comes to carry the bounds it is clipped to"""
+    import copy, pickle
+    np = L['np']
+    if setup == 'assign':
+        a.lb, a.ub = np.asarray(lb, dtype=float), np.asarray(ub, dtype=float)
+    elif setup == 'asis':
+        a.lb, a.ub = np.asarray(lb), np.asarray(ub)          # integer arrays stay integer arrays
+    elif setup == 'list':
+        a.lb, a.ub = list(lb), list(ub)
+    elif setup == 'inplace':
+        for j in range(len(lb)):                              # what _initialize_agents does
+            a.lb[j] = lb[j]
+            a.ub[j] = ub[j]
+    elif setup == 'reassign':
+        a.lb, a.ub = np.asarray(ub, dtype=float) + 1.0, np.asarray(ub, dtype=float) + 2.0
+        a.lb, a.ub = np.asarray(lb, dtype=float), np.asarray(ub, dtype=float)
+    else:
+        # other bounds first, then a copy of the agent, then the final bounds written in place into the copy
+        a.lb, a.ub = np.asarray(ub, dtype=float) + 1.0, np.asarray(ub, dtype=float) + 2.0
+        a = copy.deepcopy(a) if setup == 'copy-inplace' else pickle.loads(pickle.dumps(a))
+        for j in range(len(lb)):
+            a.lb[j] = lb[j]
+            a.ub[j] = ub[j]
+    return a
+
+
 def check(ctx):
     L = lib.load()
     np = L['np']
@@ -76,9 +108,11 @@ def check(ctx):
                 pos, kinds = gen_pos(C.rng, np, lb, ub, nd)
             before = np.array(pos, copy=True)
             np.random.seed(1)
+            setup = 'assign'
             if kind == 'agent':
                 a = L['Agent'](n_variables=nv, n_dimensions=nd)
-                a.lb, a.ub = np.asarray(lb, dtype=float), np.asarray(ub, dtype=float)
+                setup = C.rng.choice(['assign', 'assign', 'inplace', 'copy-inplace', 'pickle-inplace', 'list', 'asis', 'reassign'])
+                a = setup_agent(L, a, setup, lb, ub)
                 a.position = pos
                 a.check_limits()
                 after = np.array(a.position, copy=True)
@@ -115,7 +149,7 @@ def check(ctx):
                 lines.append(f'cliphyper {nv} {enc_pos(before)}')
                 tlines.append(f'cl.hyper {enc_keys(lb)} {enc_keys(ub)} {enc_pos(before)}')
             expect.append(enc_pos(after))
-            rp = dict(how='clip', kind=kind, lb=list(lb), ub=list(ub), pos=before.tolist())
+            rp = dict(how='clip', kind=kind, lb=list(lb), ub=list(ub), pos=before.tolist(), setup=setup)
             meta.append(rp)
             ok, why = projection_ok(np, before, after, blo, bhi)
             if not ok:
@@ -236,7 +270,7 @@ def replay(prop, payload):
         nv = len(lb)
         if payload['kind'] == 'agent':
             a = L['Agent'](n_variables=nv, n_dimensions=pos.shape[1])
-            a.lb, a.ub = np.asarray(lb, dtype=float), np.asarray(ub, dtype=float)
+            a = setup_agent(L, a, payload.get('setup', 'assign'), lb, ub)
             a.position = pos
             a.check_limits()
             after = a.position
